@@ -278,8 +278,10 @@ func init() {
 		return nativeObj{"time.Now"}
 	}
 	externals["(time.Time).UnixNano"] = func(fr *frame, args []value) value {
-		fr.i.ex.Assumption("time.Now().UnixNano() is an arbitrary int64")
-		return mkScalar(fr.i.ex.Fresh("now", "int", SBV, 64), types.Int64)
+		fr.i.ex.Assumption("time.Now().UnixNano() is an arbitrary positive int64")
+		now := fr.i.ex.Fresh("now", "int", SBV, 64)
+		fr.i.ex.Assume(BvSlt(BvConst(0, 64), now))
+		return mkScalar(now, types.Int64)
 	}
 }
 
